@@ -34,7 +34,7 @@ ASSUMPTIONS = ["CPython has no happens-before race detector: races are decided b
                "the dask path executes one extra metadata run per observation (allowed)"]
 REQUIRED_COUNTERS = ["spaces", "computes", "labels_compared", "threads_computes", "processes_computes",
                      "synchronous_computes", "overlapping_task_pairs", "stochastic_labels_compared",
-                     "rng_state_checks", "calibration_pairs"]
+                     "rng_state_checks", "calibration_pairs", "unique_before_colliding"]
 TIMEOUT = {"quick": 1200, "thorough": 5400}
 LEVEL_TEXT = ("Exploration by runtime monitoring under schedule perturbation: the same observation is executed "
               "sequentially and through dask under thread and process pools of different sizes, repeatedly, with "
@@ -120,7 +120,7 @@ def det_case(rec, index, rng, tier):
     from pyxel.exposure import Readout
     from pyxel.observation import Observation, ParameterValues
 
-    space = c05.gen_space(rng)
+    space = c05.gen_space(rng, layout="unique-first" if index == 0 else None)
     space["two_steps"] = False
     en = [p for p in space["params"] if p["enabled"]]
     if space["mode"] == "custom":
@@ -145,6 +145,7 @@ def det_case(rec, index, rng, tier):
         return Observation(parameters=pv, readout=Readout(times=[1.0]), mode=space["mode"], with_dask=dask_on)
 
     rec.count("spaces")
+    rec.count("unique_before_colliding", int(c05.unique_before_colliding(space) and not zipped_class))
     try:
         det = build.make_detector(build.default_detector_spec("ccd", c05.ROWS, c05.COLS))
         tree = pyxel.run_mode(mode=observation(False), detector=det, pipeline=build.make_pipeline(pspec), with_inherited_coords=True)
